@@ -16,9 +16,9 @@ from harness import drive_devs as dd
 
 
 class _M(DSOLModel):
-    def __init__(self, sim, nevents, faults):
+    def __init__(self, sim, nevents, faults, stoppers=()):
         super().__init__(sim)
-        self.nevents, self.faults = nevents, faults
+        self.nevents, self.faults, self.stoppers = nevents, faults, set(stoppers)
         self.executed = []
 
     def construct_model(self):
@@ -28,6 +28,8 @@ class _M(DSOLModel):
     def h(self, k):
         SCHED.point("exec", "event", k)
         self.executed.append(k)
+        if k in self.stoppers:
+            self.simulator.stop()          # a command issued from a handler, i.e. on the run thread
         if k in self.faults:
             raise RuntimeError("fault")
 
@@ -43,12 +45,12 @@ class _Notif(EventListener):
 
 
 class Scenario:
-    def __init__(self, script, nevents=2, faults=(), end=10.0):
+    def __init__(self, script, nevents=2, faults=(), end=10.0, stoppers=()):
         sched.install()
         SCHED.__init__()
         self.script = list(script)
         self.sim = sched.ISim("thr")
-        self.model = _M(self.sim, nevents, set(faults))
+        self.model = _M(self.sim, nevents, set(faults), stoppers)
         self.notifs = []
         self.results = []
         with dd.quiet():
